@@ -164,6 +164,9 @@ func needsQuoting(s string) bool {
 		"repeat", "return", "while":
 		return true
 	}
+	if s == "" {
+		return true
+	}
 	// [%a_][%w_]*
 	for i, c := range s {
 		if i == 0 {
